@@ -2,6 +2,8 @@
 import persist_common as pc
 
 SHRINKABLE = True
+MODEL = "persist"
+model_lines = pc.model_lines
 PROP = "C06"
 RULE = ("same font/history generator as C01 restricted to in-place saves (after a first save-as for memory-built fonts), "
         "saves weighted up; after each save: ufoLib read-back == shadow content, no orphan files (glif not in contents.plist, "
@@ -18,7 +20,7 @@ MODES = ["inplace"]
 
 
 def generate(rng, tier):
-    n = 120 if tier == "quick" else 3000
+    n = 500 if tier == "quick" else 6000
     for _ in range(n):
         yield pc.gen_case(rng, tier, MODES, p_save=0.2)
 
